@@ -22,7 +22,7 @@ from typing import Annotated, Any, Dict, List, Optional, Union  # noqa: F401  (u
 import pydantic
 
 import vloop
-from taskiq import AsyncBroker, Context, TaskiqDepends  # noqa: F401
+from taskiq import AsyncBroker, Context, TaskiqDepends, async_shared_broker  # noqa: F401
 from taskiq.brokers.inmemory_broker import InmemoryResultBackend
 from taskiq.compat import parse_obj_as
 from taskiq.formatters.json_formatter import JSONFormatter
@@ -314,8 +314,15 @@ async def trip(case):
                       lambda: Receiver(broker, validate_params=bool(case.get("validate", True))))
 
 
-async def call(case, out, fn, CAP, broker, task, get_receiver):
-    """one call of `task` (a function already registered with `broker`) through kiq -> wire -> the receiver"""
+async def call(case, out, fn, CAP, broker, task, get_receiver, registry=None, worker=None):
+    """one call of `task` through kiq -> wire -> the receiver.  `broker` is the broker the kick lands on.  Ordinary call:
+    `fn` (registered with `broker`) is the function under test and `CAP` its capture list.  registry = (defs, target):
+    the call is made in a process where several functions are registered (see registry_trip); which of them the receiver
+    ran is read off their capture lists (each body appends to its own) and the observation - hints, pydantic's table,
+    CPython's binding, received values - is taken against THAT function (against defs[target] when none ran)."""
+    if registry is not None:
+        out["executed"], out["judged"] = [], registry[1]
+        out["src"], out["hints"] = registry[0][registry[1]][1]["src"], registry[0][registry[1]][1]["hints"]
     args = [build(s) for s in case["args"]]
     kwargs = {k: build(s) for k, s in case["kwargs"]}
     has_type = any(isinstance(a, type) for a in list(args) + list(kwargs.values()))
@@ -346,24 +353,32 @@ async def call(case, out, fn, CAP, broker, task, get_receiver):
     out["roundtrip_canon_eq"] = canon(loaded) == whole
     rest = lambda m: canon({k: getattr(m, k) for k in type(m).model_fields if k not in ("args", "kwargs")})  # noqa: E731
     out["roundtrip_rest_eq"] = rest(loaded) == rest(message)
-    # pydantic itself (not taskiq.compat) on every (annotation in the signature, value on the wire)
-    table = []
-    seen = set()
-    for _, tn in out["hints"]:
-        for v in list(loaded.args) + list(loaded.kwargs.values()):
-            cv = canon(v)
-            key = tn + "|" + json.dumps(cv, sort_keys=True)
-            if key in seen:
-                continue
-            seen.add(key)
-            try:
-                table.append([tn, cv, "val", canon(reference_parse(tn, v))])
-            except (ValueError, RuntimeError) as e:
-                table.append([tn, cv, "swallowed", type(e).__name__])
-            except BaseException as e:  # noqa: BLE001
-                table.append([tn, cv, "raise", type(e).__name__])
-    out["conv"] = table
-    out["pybind"], out["pybind_err"] = py_bind(fn, case, len(loaded.args), list(loaded.kwargs))
+
+    def table_and_bind(case, fn):
+        # pydantic itself (not taskiq.compat) on every (annotation in the signature, value on the wire)
+        table = []
+        seen = set()
+        for _, tn in out["hints"]:
+            for v in list(loaded.args) + list(loaded.kwargs.values()):
+                cv = canon(v)
+                key = tn + "|" + json.dumps(cv, sort_keys=True)
+                if key in seen:
+                    continue
+                seen.add(key)
+                try:
+                    table.append([tn, cv, "val", canon(reference_parse(tn, v))])
+                except (ValueError, RuntimeError) as e:
+                    table.append([tn, cv, "swallowed", type(e).__name__])
+                except BaseException as e:  # noqa: BLE001
+                    table.append([tn, cv, "raise", type(e).__name__])
+        out["conv"] = table
+        out["pybind"], out["pybind_err"] = py_bind(fn, case, len(loaded.args), list(loaded.kwargs))
+
+    if registry is None:
+        table_and_bind(case, fn)
+        n0 = len(CAP)
+    else:
+        n0 = [len(d[3]) for d in registry[0]]
     receiver = get_receiver()
     consulted = out["consulted"] = []
 
@@ -372,21 +387,36 @@ async def call(case, out, fn, CAP, broker, task, get_receiver):
         consulted.append([names[0] if names else "?" + repr(annot), canon(value)])
         return parse_obj_as(annot, value)
 
+    exc = None
     params_parser.parse_obj_as = logging_parse_obj_as
     try:
         await receiver.callback(bm.message)
     except BaseException as e:  # noqa: BLE001
-        out["outcome"] = "raised"
-        out["exc"] = type(e).__name__
-        return out
+        exc = e
     finally:
         params_parser.parse_obj_as = parse_obj_as
-    if CAP:
+    if registry is None:
+        new = CAP[n0:]
+    else:
+        defs, target = registry
+        ran = [i for i, d in enumerate(defs) if len(d[3]) > n0[i]]
+        out["executed"] = ran                    # which function bodies this one message entered
+        k = out["judged"] = ran[0] if ran else target
+        fd, od, fn, cap = defs[k]
+        case = dict(case, params=fd["params"], ret=fd.get("ret"))
+        out["src"], out["hints"] = od["src"], od["hints"]
+        new = cap[n0[k]:]
+        table_and_bind(case, fn)
+    if exc is not None:
+        out["outcome"] = "raised"
+        out["exc"] = type(exc).__name__
+        return out
+    if new:
         out["outcome"] = "invoked"
-        out["calls"] = len(CAP)
+        out["calls"] = len(new)
         rec = {}
         for p in case["params"]:
-            v = CAP[0][p["name"]]
+            v = new[0][p["name"]]
             if p["kind"] == "varpos":
                 rec[p["name"]] = ["star", [canon(x) for x in v]]
             elif p["kind"] == "varkw":
@@ -394,11 +424,12 @@ async def call(case, out, fn, CAP, broker, task, get_receiver):
             else:
                 rec[p["name"]] = canon(v)
         out["received"] = rec
-        out["extra_locals"] = sorted(set(CAP[0]) - {p["name"] for p in case["params"]})
+        out["extra_locals"] = sorted(set(new[0]) - {p["name"] for p in case["params"]})
         return out
-    ready = await broker.result_backend.is_result_ready(bm.task_id)
+    backend = (worker or broker).result_backend
+    ready = await backend.is_result_ready(bm.task_id)
     if ready:
-        res = await broker.result_backend.get_result(bm.task_id)
+        res = await backend.get_result(bm.task_id)
         if res.is_err and isinstance(res.error, TypeError):
             out["outcome"] = "typeerror"
             out["exc"] = str(res.error)[:200]
@@ -524,8 +555,75 @@ async def group_trip(case):
         unregister_types(added)
 
 
+# --------------------------------------------------------------------------- groups of calls around a task registry
+# A registry case {"fns": [function definitions], "events": [...], "steps": [calls], fmt, ser, validate} is a SEQUENCE run
+# in this one process around ONE worker broker and ONE Receiver:
+#   {"ev": "reg", "fn": i, "where": "local" | "shared" | "other", "name": str | None, "how": "register" | "decorator"}
+#       registers function i on the worker broker itself / as a shared task (async_shared_broker: the process-wide global
+#       registry every broker sees) / on another broker of the same configuration (a producer-side definition);
+#       name None = no task_name given, taskiq derives "<module>:<function name>" - the same for every generated `f`
+#   {"ev": "receiver"}            the worker's Receiver is constructed here (before, between or after the registrations)
+#   {"ev": "call", "step": j}     steps[j]: kiq through the task object of registration `via`, the message that landed on
+#                                 that task's broker is handed to the worker's receiver
+# Several functions may share a task name (a shared task overridden on the broker, a task registered again, a producer
+# stub) with different signatures / annotations / dependencies.  Every function body appends to its own capture list,
+# so the observation says which function really ran; the call is judged by THAT function's signature.
+async def registry_trip(case):
+    conf = (case.get("fmt"), case.get("ser"), bool(case.get("validate", True)))
+    for s in case["steps"]:
+        if (s.get("fmt"), s.get("ser"), bool(s.get("validate", True))) != conf:
+            raise RuntimeError("a step of a registry group has its own formatter / serializer / validate_params")
+    AsyncBroker.global_task_registry.clear()
+    worker, other = make_broker(conf[0], conf[1]), make_broker(conf[0], conf[1])
+    async_shared_broker.default_broker(worker)
+    try:
+        defs = []
+        for fd in case["fns"]:
+            o = {}
+            fn, CAP = define(fd, o)
+            defs.append((fd, o, fn, CAP))
+        regs, holder = [], []
+        out = {"names": [], "steps": [None] * len(case["steps"])}
+
+        def get_receiver():
+            if not holder:
+                raise RuntimeError("a call before the receiver exists")
+            return holder[0]
+
+        for ev in case["events"]:
+            if ev["ev"] == "reg":
+                b = {"local": worker, "other": other, "shared": async_shared_broker}[ev["where"]]
+                fn = defs[ev["fn"]][2]
+                if ev["how"] == "register":
+                    t = b.register_task(fn, task_name=ev["name"])
+                elif ev["name"] is None:
+                    t = b.task(fn)
+                else:
+                    t = b.task(task_name=ev["name"])(fn)
+                regs.append((t, ev, other if ev["where"] == "other" else worker))
+                out["names"].append(t.task_name)
+            elif ev["ev"] == "receiver":
+                holder[:] = [Receiver(worker, validate_params=conf[2])]
+            else:
+                st = case["steps"][ev["step"]]
+                task, rev, kb = regs[st["via"]]
+                # the generator's idea of "same task name" (its name key; None = derived name) must be taskiq's
+                same = {t.task_name for t, e, _ in regs if e["name"] == rev["name"]}
+                diff = {t.task_name for t, e, _ in regs if e["name"] != rev["name"]}
+                if len(same) != 1 or same & diff:
+                    raise RuntimeError("task names are not what the generator assumed: %r / %r" % (same, diff))
+                out["steps"][ev["step"]] = await call(st, {}, None, None, kb, task, get_receiver,
+                                                      registry=(defs, st["target"]), worker=worker)
+        return out
+    finally:
+        AsyncBroker.global_task_registry.clear()
+        async_shared_broker.default_broker(None)
+
+
 def run_case(case, opts):
     async def main(loop):
+        if "events" in case:
+            return await registry_trip(case)
         if "steps" in case:
             return await group_trip(case)
         return await trip(case)
